@@ -28,7 +28,7 @@ func main() {
 	case "C03":
 		run = func(r *simcore.Run) {
 			cfg := chansim.DrawConfig(r.Tape)
-			mode := chansim.Mode{Cuts: true, StripDLP: true,
+			mode := chansim.Mode{Cuts: true, StripDLP: true, StaleWrites: true,
 				MaxSteps: 60 + 30*r.Tape.CfgDraw(3), MaxHtlcs: []int{3, 8, 16}[r.Tape.CfgDraw(3)]}
 			r.Arm = "cuts/" + cfg.TypeName
 			chansim.NewSim(r, cfg, mode).Run()
@@ -37,7 +37,7 @@ func main() {
 		run = func(r *simcore.Run) {
 			cfg := chansim.DrawConfig(r.Tape)
 			cfg.NoRevLogAmt = r.Tape.CfgDraw(4) == 0
-			mode := chansim.Mode{Cuts: true, WriteFail: true, ForkReload: 1, ForkResume: 3,
+			mode := chansim.Mode{Cuts: true, WriteFail: true, StaleWrites: true, ForkReload: 1, ForkResume: 3,
 				MaxSteps: 40 + 20*r.Tape.CfgDraw(2), MaxHtlcs: []int{3, 8, 16}[r.Tape.CfgDraw(3)]}
 			if thorough {
 				mode.ForkResume = 8
@@ -53,7 +53,7 @@ func main() {
 				return
 			}
 			cfg := chansim.DrawConfig(r.Tape)
-			mode := chansim.Mode{Cuts: true, WriteFail: true, ForkReload: 3, ForkResume: 1,
+			mode := chansim.Mode{Cuts: true, WriteFail: true, StaleWrites: true, ForkReload: 3, ForkResume: 1,
 				MaxSteps: 50 + 30*r.Tape.CfgDraw(2), MaxHtlcs: 6}
 			r.Arm = "release-rule/" + cfg.TypeName
 			chansim.NewSim(r, cfg, mode).Run()
